@@ -62,14 +62,15 @@ Section Main.
     rates_nonneg powf V P g evs ->
     exists x0 w0,
       s_new = Ok x0 /\ y_new land = Ok w0 /\
+      sh_pos (x_core x0) = y_pos (z_core (w_sound w0)) /\ h_mirror (x_shell x0) = h_mirror (z_shell (w_sound w0)) /\
       forall ys, y_run psize land w0 evs = Ok (ys, false) ->
         exists xs, s_run x0 evs = Ok xs /\ Forall2 (obs_rel A sr) xs ys.
   Proof.
     intros psize land evs [Hr0 Hrates].
     destruct WF as (H1 & H2 & H3 & H4 & H5 & H6 & H7 & H8 & H9).
     destruct (init_inv A azero fuel audio sr slice _ _ B H1 H2 H3 H4 H5 H6 H7 H8 H9 land V silence identity P pcenter g
-                       eq_refl eq_refl Hr0) as (x0 & w0 & Hx & Hw & HInv & Hrate).
-    exists x0, w0. split; [exact Hx|]. split; [exact Hw|]. intros ys Hrun.
+                       eq_refl eq_refl Hr0) as (x0 & w0 & Hx & Hw & HInv & Hrate & Hpos0 & Hst0).
+    exists x0, w0. split; [exact Hx|]. split; [exact Hw|]. split; [exact Hpos0|]. split; [exact Hst0|]. intros ys Hrun.
     rewrite <- Hrate in Hrates.
     exact (run_sim A azero fuel audio sr slice _ _ B H1 H2 H3 H4 H5 H6 H7 H8 H9 psize land F interp cast powf ascale
                    V vinterp silence identity amp P pinterp panned cap evs x0 w0 HInv Hrates ys Hrun).
